@@ -4,6 +4,8 @@ import (
 	"crypto/sha256"
 	"crypto/sha512"
 	"errors"
+	"fmt"
+	"strconv"
 	"strings"
 	"unicode"
 	"unicode/utf8"
@@ -69,6 +71,39 @@ func init() {
 			return bip39Err(err)
 		}
 		return "ok " + hx(e)
+	}
+	execs["bip39.sweep"] = func(a []string) string {
+		setLang(a[0])
+		n, _ := strconv.Atoi(a[1])
+		if n < 1 || n > 5 {
+			return "bad-op"
+		}
+		zero, err := bip39.EntropyToMnemonic(make([]byte, 16))
+		if err != nil {
+			return bip39Err(err)
+		}
+		m := append(bip39.Mnemonic(nil), zero...)
+		buf := make([]byte, n)
+		for i := range buf {
+			buf[i] = 'a'
+		}
+		var known []string
+		for {
+			m[0] = string(buf)
+			if _, err := bip39.MnemonicToEntropy(m); !errors.Is(err, bip39.ErrInvalidMnemonic) {
+				known = append(known, hx(buf))
+			}
+			i := n - 1
+			for i >= 0 && buf[i] == 'z' {
+				buf[i] = 'a'
+				i--
+			}
+			if i < 0 {
+				break
+			}
+			buf[i]++
+		}
+		return fmt.Sprintf("known=%d %s", len(known), strings.Join(known, ","))
 	}
 	execs["bip39.seed"] = func(a []string) string {
 		setLang(a[0])
@@ -252,6 +287,18 @@ func genC03(g *G) {
 		}
 	}
 	g.emit("bip39.dec", "english", "_")
+	// exhaustive membership over short ASCII strings (seeded change C03-h: a reverse index keyed by a 32-bit hash of the
+	// word, so that a few non-words are taken for list words): EVERY string over a…z of length 1…4 (thorough: 5) as the
+	// first word of a twelve-word sentence; the reply lists the strings that were not rejected as unknown words
+	maxLen := 4
+	if g.thorough {
+		maxLen = 5
+	}
+	for _, lang := range langs {
+		for n := 1; n <= maxLen; n++ {
+			g.emit("bip39.sweep", lang, fmt.Sprint(n))
+		}
+	}
 	for _, b := range [][]byte{{}, []byte("abc"), make([]byte, 64), make([]byte, 111), make([]byte, 112), make([]byte, 119), make([]byte, 120), make([]byte, 200)} {
 		g.emit("hash.sha256", hx(b))
 	}
